@@ -10,10 +10,13 @@ for id in $ids; do
   obs=$(python3 -c "import json;print(json.load(open('$d/meta.json')).get('obsolete',''))")
   if [ -n "$obs" ]; then echo "obsolete $id ($obs)"; continue; fi
   exp=$(python3 -c "import json;m=json.load(open('$d/meta.json'));print(','.join(m.get('detected_by_quick_checks',[])) or 'none')")
-  out=$(tools/try_seeded.sh $d 2>&1)
+  # a change kept under one property may be caught by another property's check only (it is outside the first one's domain):
+  # then the checks listed in detected_by_quick_checks are run instead of the property's own
+  own=$(python3 -c "import json;m=json.load(open('$d/meta.json'));d=m.get('detected_by_quick_checks',[]);print('' if (not d or m['property'] in d) else ' '.join(d))")
+  out=$(tools/try_seeded.sh $d $own 2>&1)
   if echo "$out" | grep -q 'patch does not apply'; then echo "stale   $id (patch no longer applies to HEAD)"; continue; fi
   v=$(echo "$out" | grep '^VALIDATE' | grep -c 'patched_demo=\[FAIL\] suite-ok')
-  rc=$(echo "$out" | grep '^CHECK' | sed 's/.*exit=\([0-9]*\).*/\1/' | head -1)
+  rc=$(echo "$out" | grep '^CHECK' | sed 's/.*exit=\([0-9]*\).*/\1/' | sort -n | grep -m1 '^1$' || echo "$out" | grep '^CHECK' | sed 's/.*exit=\([0-9]*\).*/\1/' | head -1)
   if [ "$v" != 1 ]; then echo "INVALID $id :: $(echo "$out" | grep '^VALIDATE' | cut -c1-200)"; continue; fi
   if [ "$rc" = 1 ]; then echo "caught  $id"
   elif [ "$exp" = none ]; then echo "expected-miss $id (outside the property's quantifier, see meta.json)"
